@@ -109,6 +109,11 @@ def gen(rng, tier):
         cases.append("sse w%d S0,m,R3000:61+x0a+R3000:62 W S0,m,x63 W X0 W" % wk)
         cases.append("sse w%d S0,%s S0,%s S0,%s W3 X0 W" % (wk, EV_A, EV_B, EV_A))
     cases.append("sse w60000 S0,m,R65521:61 W S0,m,x62 W")
+    # encoded lengths at the boundaries of the chunk-size line (one more hex digit, a digit that is 0): an event's
+    # content must never produce a size line that reads as the terminating chunk
+    for L in (15, 16, 17, 255, 256, 257, 4095, 4096, 4097, 0x1001, 0x2000, 0x10ff, 0xf000, 0xff00, 0xfff0, 65527, 65528):
+        cases.append("sse S0,m,R%d:61 W S0,m,x62 W" % (L - 7))
+        cases.append("sse S0,m,x63 S0,m,R%d:61 S0,m,x62 W3" % (L - 7))
     # queue boundaries
     for k in (49, 50, 51, 52):
         cases.append("sse " + " ".join(["S0," + EV_A] * k))
